@@ -300,8 +300,12 @@ def run_dtype(ctx, p):
              'isunit': __import__('spatialmath.base.quaternions', fromlist=['x']).isunit}
     what = lambda: '%s given a %s %s array %s' % (tgt, p['defect'], M.dtype, core.short(M, 300))
     if tgt in preds:
+        arg = M
+        if p.get('scalars') and M.ndim == 1:       # the same numbers as a list / tuple of NumPy scalars of that type
+            arg = [x for x in M] if p['scalars'] == 'list' else tuple(x for x in M)
+            sig['form'] = p['scalars'] + ' of scalars'
         try:
-            r = preds[tgt](M)
+            r = preds[tgt](arg)
         except (TypeError, ValueError):
             r = False        # refusing the element type altogether is a rejection too
         ctx.judge('predicate', not r, dict(sig, kind='accepts_nonmember'), lambda: '%s returned %r' % (what(), r))
@@ -709,9 +713,9 @@ def run(ctx):
                 q = dict(target=tgt, defect='complex_translation', n=4 if tgt in ('ishom', 'SE3') else 3, t=float(rng.uniform(0.1, 2.0)), form=['bare', 'list'][rng.integers(2)])
             elif r_ == 1:
                 tgt = ['isunitvec', 'isunit'][rng.integers(2)]
-                q = dict(target=tgt, defect='half_precision_unit', n=4 if tgt == 'isunit' else int(rng.integers(2, 5)))
+                q = dict(target=tgt, defect='half_precision_unit', n=4 if tgt == 'isunit' else int(rng.integers(2, 5)), scalars=[None, 'list', 'tuple'][rng.integers(3)])
             elif r_ == 2:
-                q = dict(target='iszerovec', defect='half_precision_zero', n=int(rng.integers(1, 5)), v=int(rng.integers(1, 9)))
+                q = dict(target='iszerovec', defect='half_precision_zero', n=int(rng.integers(1, 5)), v=int(rng.integers(1, 9)), scalars=[None, 'list', 'tuple'][rng.integers(3)])
             else:
                 tgt = ['isskew', 'isskewa'][rng.integers(2)]
                 q = dict(target=tgt, defect='half_precision_skew', n=3 if tgt == 'isskew' else 4, v=int(rng.integers(1, 9)))
